@@ -87,6 +87,33 @@ def _false_for_non_finite(conj, var):
     return False
 
 
+def _is_range_test(conj, var):
+    """|var| > literal  (fabs(var) > 0.1, fastabs macro: (var > 0 ? var : -var) > 0.1)"""
+    c = frames.strip_casts(conj)
+    while c.get("kind") == "ParenExpr":
+        c = frames.strip_casts(c["inner"][0])
+    if c.get("kind") != "BinaryOperator" or c.get("opcode") not in (">", ">="):
+        return False
+    rhs = frames.strip_casts(c["inner"][1])
+    refs = {x["referencedDecl"]["name"] for x in frames.walk(c["inner"][0]) if x.get("kind") == "DeclRefExpr" and x.get("referencedDecl")}
+    return rhs.get("kind") == "FloatingLiteral" and refs <= {var, "fabs", "__builtin_fabs", "fastabs", "fabsl", "fabsf"} and var in refs
+
+
+def _counter_bound(conj, var):
+    """K if the conjunct is  counter < K  /  counter <= K-1  for an integer variable other than the scaled one, else None"""
+    c = frames.strip_casts(conj)
+    while c.get("kind") == "ParenExpr":
+        c = frames.strip_casts(c["inner"][0])
+    if c.get("kind") != "BinaryOperator" or c.get("opcode") not in ("<", "<="):
+        return None
+    lhs, rhs = frames.strip_casts(c["inner"][0]), frames.strip_casts(c["inner"][1])
+    while rhs.get("kind") == "ParenExpr":
+        rhs = frames.strip_casts(rhs["inner"][0])
+    if lhs.get("kind") == "DeclRefExpr" and lhs["referencedDecl"]["name"] != var and rhs.get("kind") == "IntegerLiteral":
+        return int(rhs["value"]) + (1 if c.get("opcode") == "<=" else 0)
+    return None
+
+
 @P.task("stumpff.argument_reduction_exits_for_non_finite_arguments")
 def _(v):
     tu = cfront.tu(FILE)
@@ -102,9 +129,23 @@ def _(v):
                     loops.append((name, var, cond))
     v.ground("reduction_loops_found", len(loops) >= 2, "loops that only rescale their control variable: %s" % [(a, b) for a, b, _ in loops])
     for k, (name, var, cond) in enumerate(loops):
-        ok = any(_false_for_non_finite(c, var) for c in _conjuncts(cond))
+        cj = _conjuncts(cond)
+        bounds = [_counter_bound(c, var) for c in cj]
+        ok = any(_false_for_non_finite(c, var) for c in cj) or any(b is not None for b in bounds)
         v.ground("%s.loop%d.condition_is_false_for_non_finite_%s" % (name, k, var), ok,
-                 "condition: %s -- +-inf is a fixed point of the rescaling, so without such a conjunct the loop never exits" % frames.expr_text(cond)[:200])
+                 "condition: %s -- +-inf is a fixed point of the rescaling, so without a conjunct that is false for non-finite values "
+                 "(or a bound on the number of rounds) the loop never exits" % frames.expr_text(cond)[:200])
+        # ... and the reduction must not be cut short for FINITE arguments: the truncated series that follows is only accurate for
+        # |z| <= 0.1 (C03_kepler stumpff contracts assume the exit condition |z| <= 0.1).  Every finite double is below 0.1 after at
+        # most 514 quarterings (log4(DBL_MAX / 0.1) = 513.7), so a bound on the number of rounds must be at least that.
+        short = []
+        for c, b in zip(cj, bounds):
+            if b is not None and b < 514:
+                short.append("at most %d rounds" % b)
+            elif b is None and not _false_for_non_finite(c, var) and not _is_range_test(c, var):
+                short.append("unrecognised conjunct %s" % frames.expr_text(c)[:80])
+        v.ground("%s.loop%d.reduction_reaches_the_series_range_for_every_finite_%s" % (name, k, var), not short,
+                 "condition: %s; %s" % (frames.expr_text(cond)[:200], "; ".join(short)))
 
 
 _HARNESS = r'''
